@@ -20,6 +20,8 @@ thread_local! {
     static NEXT_TRANSPORT: RefCell<Option<Transport>> = const { RefCell::new(None) };
     static JITTER: RefCell<BTreeMap<[u8; 32], Duration>> = const { RefCell::new(BTreeMap::new()) };
     static ORDER_STATE: Cell<Option<u64>> = const { Cell::new(None) };
+    static SCHED_HOOK: RefCell<Option<Box<dyn FnMut(&'static str)>>> = const { RefCell::new(None) };
+    static IN_SCHED_HOOK: Cell<bool> = const { Cell::new(false) };
 }
 
 /// Marks the current thread as running under a simulator (or not). Resets all per-run state.
@@ -28,6 +30,34 @@ pub fn set_active(active: bool) {
     NEXT_TRANSPORT.with(|n| *n.borrow_mut() = None);
     JITTER.with(|j| j.borrow_mut().clear());
     ORDER_STATE.with(|o| o.set(None));
+    SCHED_HOOK.with(|h| *h.borrow_mut() = None);
+    IN_SCHED_HOOK.with(|f| f.set(false));
+}
+
+/// Installs a callback that is invoked at scheduling points (just before a shared lock is
+/// acquired). A simulator uses it to run "another thread's" operation at exactly that point: what a
+/// preemption between two lock acquisitions would do on a real machine.
+pub fn set_sched_hook(hook: Option<Box<dyn FnMut(&'static str)>>) {
+    SCHED_HOOK.with(|h| *h.borrow_mut() = hook);
+}
+
+/// A point at which the calling thread holds none of the locks named by `tag` and may be preempted.
+pub(crate) fn sched_point(tag: &'static str) {
+    if !active() || IN_SCHED_HOOK.with(|f| f.get()) {
+        return;
+    }
+    let Some(mut hook) = SCHED_HOOK.with(|h| h.borrow_mut().take()) else {
+        return;
+    };
+    IN_SCHED_HOOK.with(|f| f.set(true));
+    hook(tag);
+    IN_SCHED_HOOK.with(|f| f.set(false));
+    SCHED_HOOK.with(|h| {
+        let mut slot = h.borrow_mut();
+        if slot.is_none() {
+            *slot = Some(hook);
+        }
+    });
 }
 
 pub fn active() -> bool {
